@@ -542,18 +542,240 @@ theorem compileDate_total (cu : Culture) (text : Text) : OnlyInvalid (compileDat
       | split)
   · exact steppedOf_onlyInvalid _ (compileCustom_onlyInvalid _ _ _)
 
-theorem not_mem_of_contains_false (t : Text) (h : (!t.contains 'l') = true) : 'l' ∉ t := by
-  intro hm
-  have : t.contains 'l' = true := List.contains_iff_mem.mpr hm
-  rw [this] at h; cases h
+/-! ## LocalDateTime: the plain builder stops with `!dom` at the letter `l`, the builder with embedded patterns takes over -/
 
-theorem not_mem_append3 (a b : Text) (ha : 'l' ∉ a) (hb : 'l' ∉ b) : 'l' ∉ a ++ [' '] ++ b := by
-  intro h
-  simp only [List.mem_append, List.mem_cons, List.mem_nil_iff, or_false] at h
-  rcases h with (h | h) | h
-  · exact ha h
-  · exact absurd h (by decide)
-  · exact hb h
+/-- the only exceptions a result can carry are `InvalidPatternError` and the model's `!dom` marker -/
+def InvOrDom {α : Type} (r : R α) : Prop := ∀ e, r = .error e → e = .invalidPattern ∨ e = .decimalDomain
+
+theorem invOrDom_of_onlyInvalid {α : Type} (r : R α) (h : OnlyInvalid r) : InvOrDom r := fun e he => Or.inl (h e he)
+
+theorem handleChar_datetime_invOrDom (tm : Tmpl) (cu : Culture) (c : Char) (rest : Text) (st : CSt) :
+    InvOrDom (handleChar (.datetime tm) cu c rest st) := by
+  by_cases hl : c = 'l'
+  · subst hl
+    intro e he
+    have : handleChar (.datetime tm) cu 'l' rest st = .error .decimalDomain := by
+      unfold handleChar handleDateTime
+      have hc : handleCommon 'l' rest st = none := by
+        unfold handleCommon
+        rw [if_neg (by decide), if_neg (by decide), if_neg (by decide)]
+      simp only [hc]
+      repeat (first | rw [if_neg (by decide)] | rw [if_pos rfl])
+      simp
+    rw [this] at he; injection he with he; right; exact he.symm
+  · exact invOrDom_of_onlyInvalid _ (by unfold handleChar; exact handleDateTime_onlyInvalid cu c rest st hl)
+
+theorem compileLoop_datetime_invOrDom (tm : Tmpl) (cu : Culture) : ∀ (fuel : Nat) (text : Text) (st : CSt),
+    text.length ≤ fuel → InvOrDom (compileLoop (.datetime tm) cu fuel text st) := by
+  intro fuel
+  induction fuel with
+  | zero =>
+    intro text st h
+    cases text with
+    | nil => unfold compileLoop; intro e he; cases he
+    | cons c r => simp at h
+  | succ f ih =>
+    intro text st h
+    cases text with
+    | nil => unfold compileLoop; intro e he; cases he
+    | cons c rest =>
+      unfold compileLoop
+      cases hh : handleChar (.datetime tm) cu c rest st with
+      | error e => intro e' he'; injection he' with he'; subst he'; exact handleChar_datetime_invOrDom tm cu c rest st e hh
+      | ok p =>
+        obtain ⟨st', k⟩ := p
+        dsimp only
+        apply ih
+        have : (rest.drop k).length ≤ rest.length := by simp
+        simp at h; omega
+
+theorem compileCustom_datetime_invOrDom (tm : Tmpl) (cu : Culture) (text : Text) :
+    InvOrDom (compileCustom (.datetime tm) cu text) := by
+  unfold compileCustom
+  cases h1 : compileLoop (.datetime tm) cu text.length text ⟨0, []⟩ with
+  | error e => intro e' he'; injection he' with he'; subst he'; exact compileLoop_datetime_invOrDom tm cu _ _ _ (Nat.le_refl _) e h1
+  | ok st =>
+    dsimp only
+    split
+    · rename_i e he
+      split at he
+      · cases he
+      · intro e' he'; injection he' with he'; subst he'; left; exact validateUsed_onlyInvalid _ e he
+    · intro e he; cases he
+
+theorem compileDate_stepped (cu : Culture) (text : Text) (p : Pat) (h : compileDate cu text = .ok p) : ∃ c, p = .stepped c := by
+  have key : ∀ cu' t, steppedOf (compileCustom .date cu' t) = .ok p → ∃ c, p = .stepped c := by
+    intro cu' t hh
+    unfold steppedOf at hh
+    cases hc : compileCustom .date cu' t with
+    | error e => rw [hc] at hh; cases hh
+    | ok c => rw [hc] at hh; injection hh with hh; exact ⟨c, hh.symm⟩
+  unfold compileDate at h
+  split at h
+  · cases h
+  · repeat' (first | exact key _ _ h | cases h | split at h)
+  · exact key _ _ h
+
+theorem compileTime_stepped (cu : Culture) (text : Text) (p : Pat) (h : compileTime cu text = .ok p) : ∃ c, p = .stepped c := by
+  have key : ∀ cu' t, steppedOf (compileCustom .time cu' t) = .ok p → ∃ c, p = .stepped c := by
+    intro cu' t hh
+    unfold steppedOf at hh
+    cases hc : compileCustom .time cu' t with
+    | error e => rw [hc] at hh; cases hh
+    | ok c => rw [hc] at hh; injection hh with hh; exact ⟨c, hh.symm⟩
+  unfold compileTime at h
+  split at h
+  · cases h
+  · repeat' (first | exact key _ _ h | cases h | split at h)
+  · exact key _ _ h
+
+theorem handleEmbedded_onlyInvalid (cu : Culture) (rest : Text) (st : DSt) : OnlyInvalid (handleEmbedded cu rest st) := by
+  unfold handleEmbedded
+  split
+  · rename_i r
+    cases h1 : embeddedPattern r with
+    | error e => exact err_of _ _ _ (embeddedPattern_onlyInvalid r) e h1
+    | ok q =>
+      obtain ⟨text, k⟩ := q
+      dsimp only
+      cases h2 : addField ⟨st.used, []⟩ F.embeddedDate with
+      | error e => exact err_of _ _ _ (addField_onlyInvalid _ _) e h2
+      | ok u =>
+        dsimp only
+        cases h3 : compileDate cu text with
+        | error e => exact err_of _ _ _ (compileDate_total cu text) e h3
+        | ok p =>
+          obtain ⟨c, rfl⟩ := compileDate_stepped cu text p h3
+          exact onlyInvalid_ok _
+  · rename_i r
+    cases h1 : embeddedPattern r with
+    | error e => exact err_of _ _ _ (embeddedPattern_onlyInvalid r) e h1
+    | ok q =>
+      obtain ⟨text, k⟩ := q
+      dsimp only
+      cases h2 : addField ⟨st.used, []⟩ F.embeddedTime with
+      | error e => exact err_of _ _ _ (addField_onlyInvalid _ _) e h2
+      | ok u =>
+        dsimp only
+        cases h3 : compileTime cu text with
+        | error e => exact err_of _ _ _ (compileTime_total cu text) e h3
+        | ok p =>
+          obtain ⟨c, rfl⟩ := compileTime_stepped cu text p h3
+          exact onlyInvalid_ok _
+  · exact onlyInvalid_err
+
+theorem handleDT_onlyInvalid (cu : Culture) (c : Char) (rest : Text) (st : DSt) : OnlyInvalid (handleDT cu c rest st) := by
+  unfold handleDT
+  by_cases hl : c = 'l'
+  · rw [if_pos hl]; exact handleEmbedded_onlyInvalid cu rest st
+  · rw [if_neg hl]
+    cases hh : handleDateTime cu c rest ⟨st.used, st.cur⟩ with
+    | error e => exact err_of _ _ _ (handleDateTime_onlyInvalid cu c rest _ hl) e hh
+    | ok p => exact onlyInvalid_ok _
+
+/-- the embedded-pattern handler consumes at most the rest of the text -/
+theorem compileLoopDT_onlyInvalid (cu : Culture) : ∀ (fuel : Nat) (text : Text) (st : DSt),
+    text.length ≤ fuel → OnlyInvalid (compileLoopDT cu fuel text st) := by
+  intro fuel
+  induction fuel with
+  | zero =>
+    intro text st h
+    cases text with
+    | nil => unfold compileLoopDT; exact onlyInvalid_ok _
+    | cons c r => simp at h
+  | succ f ih =>
+    intro text st h
+    cases text with
+    | nil => unfold compileLoopDT; exact onlyInvalid_ok _
+    | cons c rest =>
+      unfold compileLoopDT
+      cases hh : handleDT cu c rest st with
+      | error e => exact err_of _ _ _ (handleDT_onlyInvalid cu c rest st) e hh
+      | ok p =>
+        obtain ⟨st', k⟩ := p
+        dsimp only
+        apply ih
+        have : (rest.drop k).length ≤ rest.length := by simp
+        simp at h; omega
+
+theorem buildCheck_onlyInvalid (used : Nat) : OnlyInvalid (buildCheck used) := by
+  unfold buildCheck
+  split
+  · exact onlyInvalid_err
+  · split
+    · exact onlyInvalid_err
+    · exact onlyInvalid_ok _
+
+theorem compileSegmented_onlyInvalid (cu : Culture) (text : Text) : OnlyInvalid (compileSegmented cu text) := by
+  unfold compileSegmented
+  cases h1 : compileLoopDT cu text.length text ⟨0, [], []⟩ with
+  | error e => exact err_of _ _ _ (compileLoopDT_onlyInvalid cu _ _ _ (Nat.le_refl _)) e h1
+  | ok st =>
+    dsimp only
+    cases h2 : validateUsed st.used with
+    | error e => exact err_of _ _ _ (validateUsed_onlyInvalid _) e h2
+    | ok u =>
+      dsimp only
+      cases h3 : buildCheck st.used with
+      | error e => exact err_of _ _ _ (buildCheck_onlyInvalid _) e h3
+      | ok u' => exact onlyInvalid_ok _
+
+/-- `parse_no_standard_expansion` of the LocalDateTime parser: every pattern text, embedded patterns included -/
+theorem compileDTText_onlyInvalid (tm : Tmpl) (cu : Culture) (text : Text) : OnlyInvalid (compileDTText tm cu text) := by
+  unfold compileDTText
+  cases hc : compileCustom (.datetime tm) cu text with
+  | ok c => exact onlyInvalid_ok _
+  | error e =>
+    rcases compileCustom_datetime_invOrDom tm cu text e hc with rfl | rfl
+    · exact onlyInvalid_err
+    · exact compileSegmented_onlyInvalid cu text
+
+/-- LocalDateTime patterns (ISO template value): EVERY pattern text (embedded `ld<…>` / `lt<…>` patterns included),
+    every culture record -/
+theorem compileDateTime_total (tm : Tmpl) (cu : Culture) (text : Text) : OnlyInvalid (compileDateTime tm cu text) := by
+  unfold compileDateTime
+  split
+  · exact onlyInvalid_err
+  · rename_i c
+    by_cases c1 : c = 'o' ∨ c = 'O'
+    · rw [if_pos c1]; exact steppedOf_onlyInvalid _ (compileCustom_onlyInvalid _ _ _ (by simp only [NoL]; decide))
+    rw [if_neg c1]
+    by_cases c2 : c = 'r'
+    · rw [if_pos c2]; exact steppedOf_onlyInvalid _ (compileCustom_onlyInvalid _ _ _ (by simp only [NoL]; decide))
+    rw [if_neg c2]
+    by_cases c3 : c = 'R'
+    · rw [if_pos c3]; exact steppedOf_onlyInvalid _ (compileCustom_onlyInvalid _ _ _ (by simp only [NoL]; decide))
+    rw [if_neg c3]
+    by_cases c4 : c = 's'
+    · rw [if_pos c4]; exact steppedOf_onlyInvalid _ (compileCustom_onlyInvalid _ _ _ (by simp only [NoL]; decide))
+    rw [if_neg c4]
+    by_cases c5 : c = 'S'
+    · rw [if_pos c5]; exact steppedOf_onlyInvalid _ (compileCustom_onlyInvalid _ _ _ (by simp only [NoL]; decide))
+    rw [if_neg c5]
+    by_cases c6 : c = 'f'
+    · rw [if_pos c6]; exact compileDTText_onlyInvalid _ _ _
+    rw [if_neg c6]
+    by_cases c7 : c = 'F'
+    · rw [if_pos c7]; exact compileDTText_onlyInvalid _ _ _
+    rw [if_neg c7]
+    by_cases c8 : c = 'g'
+    · rw [if_pos c8]; exact compileDTText_onlyInvalid _ _ _
+    rw [if_neg c8]
+    by_cases c9 : c = 'G'
+    · rw [if_pos c9]; exact compileDTText_onlyInvalid _ _ _
+    rw [if_neg c9]
+    exact onlyInvalid_err
+  · exact compileDTText_onlyInvalid _ _ _
+
+/-- Instant patterns (adapter over a LocalDateTime pattern): every pattern text, every culture record -/
+theorem compileInstant_total (tm : Tmpl) (cu : Culture) (text : Text) : OnlyInvalid (compileInstant tm cu text) := by
+  unfold compileInstant
+  split
+  · exact onlyInvalid_err
+  · split
+    · exact compileDTText_onlyInvalid _ _ _
+    · exact onlyInvalid_err
+  · exact compileDTText_onlyInvalid _ _ _
 
 /-- AnnualDate patterns (any template value): every pattern text, every culture record -/
 theorem compileAnnual_total (tm td : Int) (cu : Culture) (text : Text) : OnlyInvalid (compileAnnual tm td cu text) := by
@@ -576,52 +798,6 @@ theorem compileDuration_total (cu : Culture) (text : Text) : OnlyInvalid (compil
       · exact steppedOf_onlyInvalid _ (compileCustom_onlyInvalid _ _ _)
       · exact onlyInvalid_err
   · exact steppedOf_onlyInvalid _ (compileCustom_onlyInvalid _ _ _)
-
-/-- LocalDateTime patterns (ISO template value): every pattern text without the letter `l`, every culture record
-    whose date/time pattern texts do not use `l` either -/
-theorem compileDateTime_total (tm : Tmpl) (cu : Culture) (hcu : cu.dtTextsNoL = true) (text : Text) (hl : 'l' ∉ text) :
-    OnlyInvalid (compileDateTime tm cu text) := by
-  unfold Culture.dtTextsNoL at hcu
-  simp only [List.all_cons, List.all_nil, Bool.and_true, Bool.and_eq_true] at hcu
-  obtain ⟨h1, h2, h3, h4, h5⟩ := hcu
-  have h1 := not_mem_of_contains_false _ h1
-  have h2 := not_mem_of_contains_false _ h2
-  have h3 := not_mem_of_contains_false _ h3
-  have h4 := not_mem_of_contains_false _ h4
-  have h5 := not_mem_of_contains_false _ h5
-  unfold compileDateTime
-  split
-  · exact onlyInvalid_err
-  · rename_i c
-    by_cases c1 : c = 'o' ∨ c = 'O'
-    · rw [if_pos c1]; exact steppedOf_onlyInvalid _ (compileCustom_onlyInvalid _ _ _ (by simp only [NoL]; decide))
-    rw [if_neg c1]
-    by_cases c2 : c = 'r'
-    · rw [if_pos c2]; exact steppedOf_onlyInvalid _ (compileCustom_onlyInvalid _ _ _ (by simp only [NoL]; decide))
-    rw [if_neg c2]
-    by_cases c3 : c = 'R'
-    · rw [if_pos c3]; exact steppedOf_onlyInvalid _ (compileCustom_onlyInvalid _ _ _ (by simp only [NoL]; decide))
-    rw [if_neg c3]
-    by_cases c4 : c = 's'
-    · rw [if_pos c4]; exact steppedOf_onlyInvalid _ (compileCustom_onlyInvalid _ _ _ (by simp only [NoL]; decide))
-    rw [if_neg c4]
-    by_cases c5 : c = 'S'
-    · rw [if_pos c5]; exact steppedOf_onlyInvalid _ (compileCustom_onlyInvalid _ _ _ (by simp only [NoL]; decide))
-    rw [if_neg c5]
-    by_cases c6 : c = 'f'
-    · rw [if_pos c6]; exact steppedOf_onlyInvalid _ (compileCustom_onlyInvalid _ _ _ (not_mem_append3 _ _ h1 h2))
-    rw [if_neg c6]
-    by_cases c7 : c = 'F'
-    · rw [if_pos c7]; exact steppedOf_onlyInvalid _ (compileCustom_onlyInvalid _ _ _ h3)
-    rw [if_neg c7]
-    by_cases c8 : c = 'g'
-    · rw [if_pos c8]; exact steppedOf_onlyInvalid _ (compileCustom_onlyInvalid _ _ _ (not_mem_append3 _ _ h4 h2))
-    rw [if_neg c8]
-    by_cases c9 : c = 'G'
-    · rw [if_pos c9]; exact steppedOf_onlyInvalid _ (compileCustom_onlyInvalid _ _ _ (not_mem_append3 _ _ h4 h5))
-    rw [if_neg c9]
-    exact onlyInvalid_err
-  · exact steppedOf_onlyInvalid _ (compileCustom_onlyInvalid _ _ _ hl)
 
 theorem compileOffsetText_onlyInvalid (cu : Culture) (text : Text) : OnlyInvalid (compileOffsetText cu text) := by
   unfold compileOffsetText
@@ -729,8 +905,7 @@ theorem compileOffset_total (cu : Culture) (hcu : cu.offsetTextsCustom = true) (
 /-- **create_total** (modelled types): for every pattern text, creating a LocalTime, LocalDate or Offset pattern
     either succeeds or raises `InvalidPatternError` — never any other exception, and the builder loop always
     terminates within its fuel. -/
-theorem compile_total (ty : PType) (cu : Culture) (hcu : cu.offsetTextsCustom = true) (hdt : cu.dtTextsNoL = true)
-    (text : Text) (hl : NoL ty text) :
+theorem compile_total (ty : PType) (cu : Culture) (hcu : cu.offsetTextsCustom = true) (text : Text) :
     (∃ p, compile ty cu text = .ok p) ∨ compile ty cu text = .error .invalidPattern := by
   rw [← onlyInvalid_iff]
   unfold compile
@@ -738,12 +913,11 @@ theorem compile_total (ty : PType) (cu : Culture) (hcu : cu.offsetTextsCustom = 
   · exact compileTime_total cu text
   · exact compileDate_total cu text
   · exact compileOffset_total cu hcu text
-  · exact compileDateTime_total _ cu hdt text hl
+  · exact compileDateTime_total _ cu text
   · exact compileAnnual_total _ _ cu text
   · exact compileDuration_total cu text
 
 theorem invariantCulture_offsetTextsCustom : invariantCulture.offsetTextsCustom = true := by decide
-theorem invariantCulture_dtTextsNoL : invariantCulture.dtTextsNoL = true := by decide
 
 /-- outcome class of a creation: 0 = created, 1 = InvalidPatternError, 2 = anything else -/
 def outcome (r : R Pat) : Nat :=
@@ -766,6 +940,13 @@ example : outcome (compile (.datetime Tmpl.default) invariantCulture "uuuu-MM-dd
 example : outcome (compile (.datetime Tmpl.default) invariantCulture ['F']) = 0 := by decide +kernel
 example : outcome (compile (.datetime Tmpl.default) invariantCulture "HH uuuu HH".toList) = 1 := by decide +kernel
 example : outcome (compile (.datetime Tmpl.default) invariantCulture "gg MM".toList) = 1 := by decide +kernel
+example : outcome (compile (.datetime Tmpl.default) invariantCulture "ld<uuuu-MM-dd> lt<HH:mm>".toList) = 0 := by decide +kernel
+example : outcome (compile (.datetime Tmpl.default) invariantCulture "ld<uuuu> uuuu".toList) = 1 := by decide +kernel
+example : outcome (compile (.datetime Tmpl.default) invariantCulture "l<uuuu HH>".toList) = 1 := by decide +kernel
+example : outcome (compile (.datetime Tmpl.default) invariantCulture "ld<ld<uuuu>>".toList) = 1 := by decide +kernel
+example : outcome (compile (.datetime Tmpl.default) invariantCulture "ld<uuuu".toList) = 1 := by decide +kernel
+example : outcome (compileInstant Tmpl.default invariantCulture ['g']) = 0 := by decide +kernel
+example : outcome (compileInstant Tmpl.default invariantCulture ['s']) = 1 := by decide +kernel
 example : outcome (compile (.annual 1 1) invariantCulture "MMMM dd".toList) = 0 := by decide +kernel
 example : outcome (compile (.annual 1 1) invariantCulture "ddd".toList) = 1 := by decide +kernel
 example : outcome (compile .duration invariantCulture "-D:hh:mm:ss.FFFFFFFFF".toList) = 0 := by decide +kernel
